@@ -984,9 +984,9 @@ end rules3
 section rules4
 variable {Γ : Ctx} {v' v : Visitor} {a : Ast}
 
-theorem eqv_recursionRounds (hv : VE r v' v a) (idx : Nat) : ∀ (n : Nat) (it : Ty),
-    Eqv r (Option.map (R r.τ)) (recursionRounds v' (renAst r.ρ.f a) idx n (R r.τ it))
-      (recursionRounds v a idx n it)
+theorem eqv_recursionRounds (te : TraitEnv) (hv : VE r v' v a) (idx : Nat) : ∀ (n : Nat) (it : Ty),
+    Eqv r (Option.map (R r.τ)) (recursionRounds (renTE r.τ te) v' (renAst r.ρ.f a) idx n (R r.τ it))
+      (recursionRounds te v a idx n it)
   | 0, _ => eqv_pure rfl
   | n+1, it => by
     unfold recursionRounds
@@ -994,10 +994,15 @@ theorem eqv_recursionRounds (hv : VE r v' v a) (idx : Nat) : ∀ (n : Nat) (it :
     refine eqv_bind (eqv_visitChildDecl hv 0 it) (fun _ => ?_)
     refine eqv_bind (eqv_childType hv idx) (fun r1 => ?_)
     refine eqv_bind (eqv_expectTy _ r1) (fun nt => ?_)
-    rw [beq_R']
-    split
-    · exact eqv_pure rfl
-    · exact eqv_recursionRounds hv idx n nt
+    rw [merge_R]
+    cases merge te nt it with
+    | none => exact eqv_pure rfl
+    | some nv =>
+      simp only [Option.map_some]
+      rw [beq_R']
+      split
+      · exact eqv_pure rfl
+      · exact eqv_recursionRounds te hv idx n nv
 
 theorem eqv_viRecursion (hv : VE r v' v a) :
     Eqv r id (viRecursion (renCtx r Γ) v' (renAst r.ρ.f a)) (viRecursion Γ v a) := by
@@ -1018,22 +1023,24 @@ theorem eqv_viRecursion (hv : VE r v' v a) :
     | true =>
       dsimp only
       refine eqv_bind (eqv_expectTy _ itR) (fun it0 => ?_)
-      refine eqv_bind (eqv_modify (fun s => rfl)) (fun _ => ?_)
-      refine eqv_bind (eqv_recursionRounds hv _ _ it0) (fun stable => ?_)
-      refine eqv_bind (eqv_modify (fun s => rfl)) (fun _ => ?_)
-      cases stable with
+      rw [merge_R]
+      cases merge Γ.traits it0 initT with
       | none => exact eqv_kid_errFail _ _
-      | some it =>
+      | some vt0 =>
         simp only [Option.map_some]
-        refine eqv_bind (φ := id) ?_ (fun _ => ?_)
-        · split
-          · exact eqv_visitChild hv 2
-          · exact eqv_pure rfl
-        refine eqv_bind (eqv_endScope _) (fun _ => ?_)
-        rw [merge_R]
-        cases merge Γ.traits it initT with
+        refine eqv_bind (eqv_modify (fun s => rfl)) (fun _ => ?_)
+        refine eqv_bind (eqv_recursionRounds _ hv _ _ vt0) (fun stable => ?_)
+        refine eqv_bind (eqv_modify (fun s => rfl)) (fun _ => ?_)
+        cases stable with
         | none => exact eqv_kid_errFail _ _
-        | some m => exact eqv_setCur rfl
+        | some it =>
+          simp only [Option.map_some]
+          refine eqv_bind (φ := id) ?_ (fun _ => ?_)
+          · split
+            · exact eqv_visitChild hv 2
+            · exact eqv_pure rfl
+          refine eqv_bind (eqv_endScope _) (fun _ => ?_)
+          exact eqv_setCur rfl
 
 theorem length_renDecl (d : List (String × Ty)) : (renDecl r d).length = d.length := by
   unfold renDecl; rw [List.length_map]
